@@ -357,7 +357,11 @@ func isoDescribeDiff(got, want isoResult) string {
 }
 
 // isoPackage is the packaging step of the CLI: Get(format), WithDefaults, Package.
-func isoPackage(cfg *nfpm.Config, f string) isoResult {
+func isoPackage(cfg *nfpm.Config, f string) isoResult { return isoPackageNamed(cfg, f, false) }
+
+// isoPackageNamed is the CLI's packaging step; with askName it first asks for the conventional file name on the
+// very Info it then packages – what `nfpm package` does when the target is a directory or omitted.
+func isoPackageNamed(cfg *nfpm.Config, f string, askName bool) isoResult {
 	info, err := cfg.Get(f)
 	if err != nil {
 		return isoResult{Err: "get: " + err.Error()}
@@ -366,6 +370,9 @@ func isoPackage(cfg *nfpm.Config, f string) isoResult {
 	p, err := nfpm.Get(f)
 	if err != nil {
 		return isoResult{Err: err.Error()}
+	}
+	if askName {
+		_ = p.ConventionalFileName(info)
 	}
 	var buf bytes.Buffer
 	if err := p.Package(info, &buf); err != nil {
@@ -563,8 +570,8 @@ func isoEvalSeq(y string, seq []isoOp, base map[string]isoResult) ([]isoViolatio
 			_ = cfg.Validate()
 		case "filename":
 			isoFileName(cfg, op.Format)
-		case "package":
-			got := isoPackage(cfg, op.Format)
+		case "package", "name+package":
+			got := isoPackageNamed(cfg, op.Format, op.Kind == "name+package")
 			if want := base[op.Format]; !got.equal(want) {
 				sh := "package-differs-from-fresh:" + op.Format + ":in-sequence"
 				if !seen[sh] {
@@ -699,7 +706,7 @@ func runC11(c *Ctx) error {
 	noted := map[string]bool{}
 
 	// ---- family orders ----
-	fam := c.Rep.Family("orders", "for each generated configuration: all 120 orders of the five packagings (exhaustive), each order run on ONE freshly parsed configuration with the CLI's packaging step (Config.Get, WithDefaults, Package); every package compared byte for byte with the package built from its own freshly parsed configuration; non-trivial = every order (five packagings)")
+	fam := c.Rep.Family("orders", "for each generated configuration: all 120 orders of the five packagings (exhaustive), each order run on ONE freshly parsed configuration with the CLI's packaging step for a directory target (Config.Get, WithDefaults, ConventionalFileName, Package on the same Info); every package compared byte for byte with the package built from its own freshly parsed configuration; non-trivial = every order (five packagings)")
 	fam.Exhaustive = true
 	r := c.R.Fork("c11-orders")
 	nCfg := c.N(4, 60)
@@ -707,6 +714,10 @@ func runC11(c *Ctx) error {
 		y := genIsoConfigYAML(r, tree, scripts)
 		if k == 0 {
 			y = isoDenseConfigYAML(tree, scripts)
+		}
+		if k == 1 {
+			// the same with an architecture every format translates (and none may translate twice)
+			y = strings.Replace(isoDenseConfigYAML(tree, scripts), "arch: amd64", "arch: arm6", 1)
 		}
 		base, err := isoBaselines(y)
 		if err != nil {
@@ -724,7 +735,7 @@ func runC11(c *Ctx) error {
 			fam.Eval(key+"|"+strings.Join(order, ","), true)
 			prev := "none"
 			for _, f := range order {
-				got := isoPackage(cfg, f)
+				got := isoPackageNamed(cfg, f, true)
 				if want := base[f]; !got.equal(want) {
 					fam.Count("differs:" + f + ":after:" + prev)
 					c.Rep.Find(report.Finding{Property: "C11", Family: "orders", Shape: "package-differs-from-fresh:" + f + ":after:" + prev,
@@ -740,7 +751,7 @@ func runC11(c *Ctx) error {
 	}
 
 	// ---- family sequences ----
-	fam2 := c.Rep.Family("sequences", "random operation sequences of length 1..8 over {validate, filename(f), package(f)} for the five formats on one parsed configuration (drawn from a pool of generated configurations); every package compared with the package from a freshly parsed configuration; deep snapshot (reflection over every setting, every contents entry and its file_info, every override block, and the result of Get for every format) before and after the sequence; failing sequences are shrunk by dropping operations; non-trivial = at least two operations, one of them a packaging")
+	fam2 := c.Rep.Family("sequences", "random operation sequences of length 1..8 over {validate, filename(f), package(f), name+package(f) = file name asked on the very Info that is packaged next} for the five formats on one parsed configuration (drawn from a pool of generated configurations); every package compared with the package from a freshly parsed configuration; deep snapshot (reflection over every setting, every contents entry and its file_info, every override block, and the result of Get for every format) before and after the sequence; failing sequences are shrunk by dropping operations; non-trivial = at least two operations, one of them a packaging")
 	r2 := c.R.Fork("c11-sequences")
 	pool := make([]*isoCfg, c.N(10, 120))
 	nSeq := c.N(150, 5000)
@@ -774,6 +785,9 @@ func runC11(c *Ctx) error {
 				seq[j] = isoOp{Kind: "validate"}
 			case 1, 2:
 				seq[j] = isoOp{Kind: "filename", Format: rng.Pick(r2, Formats)}
+			case 3:
+				seq[j] = isoOp{Kind: "name+package", Format: rng.Pick(r2, Formats)}
+				hasPkg = true
 			default:
 				seq[j] = isoOp{Kind: "package", Format: rng.Pick(r2, Formats)}
 				hasPkg = true
